@@ -110,15 +110,38 @@ fn encode_value(t: &mut Tape) -> (Type, Value, ArgValue, String, bool) {
             (Type::Bytes, j, ArgValue::Bytes(bytes), name.to_string(), len == 0)
         }
         3 => {
-            let kind = t.pick(4);
-            let seed = t.pick(250) as u8;
             let mainnet = t.flag();
-            let addr = crate::ggen::shelley_address(kind, seed, mainnet);
-            let (j, name) = if t.flag() {
-                let hrp = bech32::Hrp::parse(if mainnet { "addr" } else { "addr_test" }).unwrap();
-                (json!(bech32::encode::<bech32::Bech32>(hrp, &addr).unwrap()), "address:bech32")
+            // every Shelley address type (base 0-3, pointer-free enterprise 6-7, reward 14-15), hashes of random bytes
+            let (addr, stake) = if t.flag() {
+                (crate::ggen::shelley_address(t.pick(4), t.pick(250) as u8, mainnet), false)
             } else {
-                (json!(hex::encode(&addr)), "address:hex")
+                let ty = [0u8, 1, 2, 3, 6, 7, 14, 15][t.pick(8)];
+                let mut a = vec![(ty << 4) | mainnet as u8];
+                let n = if ty <= 3 { 56 } else { 28 };
+                for _ in 0..n {
+                    a.push(t.pick(256) as u8);
+                }
+                (a, ty >= 14)
+            };
+            let (j, name) = match t.pick(5) {
+                0 | 1 => {
+                    let hrp = match (stake, mainnet) {
+                        (false, true) => "addr",
+                        (false, false) => "addr_test",
+                        (true, true) => "stake",
+                        (true, false) => "stake_test",
+                    };
+                    let text = bech32::encode::<bech32::Bech32>(bech32::Hrp::parse(hrp).unwrap(), &addr).unwrap();
+                    // a bech32 string may be written all in upper case
+                    if t.chance(1, 4) {
+                        (json!(text.to_uppercase()), "address:bech32_uppercase")
+                    } else {
+                        (json!(text), "address:bech32")
+                    }
+                }
+                2 => (json!(hex::encode(&addr).to_uppercase()), "address:hex_uppercase"),
+                3 => (json!(format!("0x{}", hex::encode(&addr))), "address:0x_hex"),
+                _ => (json!(hex::encode(&addr)), "address:hex"),
             };
             (Type::Address, j, ArgValue::Address(addr), name.to_string(), false)
         }
@@ -578,7 +601,64 @@ pub fn run(tier: Tier, seed: u64) -> Report {
     r.explore("number_literals", tier.pick(10_000, 300_000), 8, &|t, rc| check_number_literal(t, rc));
     r.explore("totality", tier.pick(50_000, 1_000_000), 60, &|t, rc| check_totality(t, rc));
     r.explore("requests", tier.pick(40_000, 1_000_000), 120, &|t, rc| check_request(t, rc));
+    // requests whose IR payload is nested deeply, each in a child process (an abort takes the process with it):
+    // the decoder has to refuse what it cannot walk, whatever the stack of the thread that parses the request
+    if !r.failed() {
+        use crate::runner::{run_isolated, ChildOutcome};
+        let depths: Vec<usize> = tier.pick(vec![64, 300, 1000, 1400, 2000, 100_000], vec![16, 64, 128, 255, 256, 257, 500, 1000, 1400, 2000, 3000, 10_000, 100_000, 1_000_000]);
+        let bs = super::c11::bombs(&depths);
+        let inputs: Vec<Vec<u8>> = bs
+            .iter()
+            .map(|b| json!({"tir": {"content": hex::encode(&b.1), "encoding": "hex", "version": "v1beta0"}, "args": {}}).to_string().into_bytes())
+            .collect();
+        let mut st = crate::runner::Stats::default();
+        'stacks: for stack_kb in [2048usize, 8192] {
+            let res = run_isolated("c16_request", &inputs, stack_kb, 120);
+            for (i, o) in res.iter().enumerate() {
+                let desc = format!("request with {} as its IR payload (stack {} KiB)", bs[i].0, stack_kb);
+                let mut case = RCase { stats: &mut st, counting: true, kf: &r.kf, property: "C16", strict: false };
+                match o {
+                    ChildOutcome::Done(s) if s == "ok" || s == "err" => {
+                        case.label(&format!("nested_payload:{}", s));
+                        case.record(hash64(&(i, stack_kb)), true, || json!({"request": desc, "outcome": s, "len": inputs[i].len()}));
+                    }
+                    ChildOutcome::Done(s) => {
+                        r.found.push(crate::runner::Found {
+                            phase: "nested_payloads".into(),
+                            tape: vec![],
+                            failure: Failure::new(s.split(' ').next().unwrap().to_string(), format!("{}: {}", desc, s), json!({"request": desc})),
+                        });
+                    }
+                    ChildOutcome::Died(why) => {
+                        r.found.push(crate::runner::Found {
+                            phase: "nested_payloads".into(),
+                            tape: vec![],
+                            failure: Failure::new("abort_on_nested_payload", format!("{}: child {}", desc, why), json!({"request": desc, "request_len": inputs[i].len()})),
+                        });
+                    }
+                    ChildOutcome::NotRun => {}
+                }
+                if r.failed() {
+                    break 'stacks;
+                }
+            }
+        }
+        r.stats.merge(st);
+        r.phases.push(json!({"phase": "nested_payloads", "kind": "child process", "cases": inputs.len() * 2}));
+    }
     r
+}
+
+/// child-process entry: parse one request document
+pub fn child_request(bytes: &[u8]) -> String {
+    let Ok(v) = serde_json::from_slice::<Value>(bytes) else {
+        return "err".into();
+    };
+    match guard(|| serde_json::from_value::<ResolveParams>(v).map_err(|e| e.to_string()).and_then(|p| parse_resolve_request(p).map(|_| ()).map_err(|e| format!("{:?}", e)))) {
+        Ok(Ok(())) => "ok".into(),
+        Ok(Err(_)) => "err".into(),
+        Err(p) => format!("panic:{} {}", p.sig(), p.message),
+    }
 }
 
 pub fn replay(phase: &str, tape: &[u16], seed: u64) -> Report {
